@@ -35,9 +35,9 @@ AllDeviations == {"IntCastWraps", "FloatCastUnchecked", "BytesNotValidated",
 
 \* =====================================================================================
 \* Numeric family : FloatData, IntegerData, BooleanData, ReferencedData
-\*   numeric_data.py:100-129 (format_values: NaN -> nan_value, format_length, format_type)
+\*   numeric_data.py:100-129 (format_values: NaN -> nan_value, format_length 74-98, format_type)
 \*   float_data.py:32-42, integer_data.py:28-38, boolean_data.py:39-51
-\*   h5_writer.py:639-659 (int8/int32 casts, NaN -> ndv), h5_reader.py:465-494 (FLOAT_NDV -> NaN)
+\*   h5_writer.py:639-659 (int8/int32 casts 642/645, NaN -> ndv 651), h5_reader.py:466-494 (FLOAT_NDV -> NaN 488-489)
 \* =====================================================================================
 FloatDt == {"float16", "float32", "float64"}
 SIntDt  == {"int8", "int16", "int32", "int64"}
@@ -71,7 +71,7 @@ Inhab(dt) ==
 NumKinds == {"Float", "Integer", "Boolean", "Referenced"}
 IntLike(kind) == kind \in {"Integer", "Referenced"}      \* referenced_data.py:25 ReferencedData(IntegerData)
 
-\* data_type.py:330-352 validate_data_type: kind chosen from the dtype when no type is given
+\* data_type.py:302-352 validate_data_type: kind chosen from the dtype when no type is given
 InferKind(src) ==
     CASE src \in FloatDt -> "Float"
       [] src \in IntDt -> "Integer"
@@ -82,7 +82,7 @@ InferKind(src) ==
 \* Representable(kind, dtype, cls): the stored type of `kind` holds every member of cls (coming from dtype) exactly.
 \*   Float    -> float64 : everything except integers that float64 cannot hold (IntHuge: |v| > 2^53, odd)
 \*   Integer  -> int32   : integral values inside the 32-bit range; NaN is the gap marker
-\*   Boolean  -> 0/1     : NaN is the gap marker (boolean_data.py:56 ndv = 0)
+\*   Boolean  -> 0/1     : NaN is the gap marker (boolean_data.py:57-61 ndv = 0)
 RepNum(kind, dt, cls) ==
     /\ dt \in NumDt
     /\ CASE kind = "Float"   -> cls # "IntHuge"
@@ -98,15 +98,15 @@ CanonNum(kind, cls) ==
       [] OTHER -> cls
 
 CodeNum(kind, cls) ==
-    CASE kind = "Float"   /\ cls \in {"NaN", "FloatNDV"} -> "FNDV"   \* h5_writer.py:650 out_values[isnan] = ndv
-      [] IntLike(kind)    /\ cls \in {"NaN", "IntNDV"}   -> "INDV"   \* numeric_data.py:121, integer_data.py:44
-      [] kind = "Boolean" /\ cls \in {"NaN", "Zero"}     -> "B0"     \* h5_writer.py:641 astype(int8)
+    CASE kind = "Float"   /\ cls \in {"NaN", "FloatNDV"} -> "FNDV"   \* h5_writer.py:651 out_values[isnan] = ndv
+      [] IntLike(kind)    /\ cls \in {"NaN", "IntNDV"}   -> "INDV"   \* numeric_data.py:121, integer_data.py:44-48
+      [] kind = "Boolean" /\ cls \in {"NaN", "Zero"}     -> "B0"     \* h5_writer.py:642 astype(int8)
       [] kind = "Boolean" /\ cls = "One"                 -> "B1"
       [] OTHER -> cls
 
 \* as built: integer_data.py:38 `values.astype(np.int32)` has no range check.  Integer sources wrap modulo 2^32;
 \* float sources take the C conversion's out-of-range value.  A *shorter* uint64 array is a float source too:
-\* numeric_data.py:93 `np.ones(n, dtype=uint64) * -2147483648` promotes the padded vector to float64.
+\* numeric_data.py:85 `np.ones(n, dtype=uint64) * -2147483648` promotes the padded vector to float64.
 ViaFloat(dt, lenrel) == dt \in FloatDt \/ (dt = "uint64" /\ lenrel = "shorter")
 DevNum(kind, dt, cls, lenrel) ==
     IF IntLike(kind) /\ dt \in IntDt /\ ~ViaFloat(dt, lenrel) /\ cls \in {"Int32Over", "Int32Under", "IntHuge"}
@@ -128,7 +128,7 @@ EncNum(kind, dt, cls, lenrel, devs) ==
 
 \* Decode is a function of the data kind and the stored code only (devs: reader-side deviations)
 DecodeD(kind, code, devs) ==
-    CASE code = "FNDV" -> "NaN"                       \* h5_reader.py:487-489
+    CASE code = "FNDV" -> "NaN"                       \* h5_reader.py:488-489
       [] code = "INDV" -> "IntNDV"
       [] code = "B0" -> "Zero"
       [] code = "B1" -> "One"
@@ -150,12 +150,12 @@ StoredType(kind) ==
 \* checked leniently: if a later version accepts, the round trip must hold).
 \*   Float <- integer arrays: numeric_data.py:121 `values[np.isnan(values)] = nan` raises on integer arrays;
 \*   Float <- bool: float_data.py:38 np.issubdtype(bool, np.number) is False - except for a shorter array, which
-\*   numeric_data.py:93 `np.ones(n, dtype=bool) * nan` has already turned into float64
+\*   numeric_data.py:85 `np.ones(n, dtype=bool) * nan` has already turned into float64
 ConvNum(kind, dt, lenrel) ==
     dt \in NumDt /\ (kind = "Float" => (dt \in FloatDt \/ (dt = "bool" /\ lenrel = "shorter")))
 
 \* =====================================================================================
-\* Text family : TextData.  text_data.py:57-76 (setter), h5_writer.py:628-648, h5_reader.py:481-485
+\* Text family : TextData.  text_data.py:59-77 (setter), h5_writer.py:630-648, h5_reader.py:481-485
 \* =====================================================================================
 TextForms  == {"str", "bytes", "U", "S", "object", "list", "int64"}
 ArrayForms == {"U", "S", "object", "list", "int64"}
@@ -172,9 +172,9 @@ RepText(form, cls) ==
     /\ TypedText(form)
     /\ cls \notin {"Surrogate", "NonUtf8"}
     /\ (cls = "EmbeddedNul" => form = "S")
-ConvText(op, form) == IF op = "infer" THEN form \in {"str", "U", "S"}      \* data_type.py:343-346
+ConvText(op, form) == IF op = "infer" THEN form \in {"str", "U", "S"}      \* data_type.py:332-337
                       ELSE TypedText(form)
-DevText(form, cls) == IF form = "S" /\ cls = "NonUtf8" THEN "BytesNotValidated" ELSE ""   \* h5_writer.py:646
+DevText(form, cls) == IF form = "S" /\ cls = "NonUtf8" THEN "BytesNotValidated" ELSE ""   \* h5_writer.py:647
 EncText(form, cls, devs) ==
     IF RepText(form, cls) THEN cls
     ELSE IF DevText(form, cls) \in devs /\ DevText(form, cls) # "" THEN "RawBytes" ELSE Reject
@@ -191,7 +191,7 @@ RepJson(cls) == TypedJson(cls)                        \* JSON text (ASCII-escape
 ConvJson(cls) == cls # "NpInt"                        \* json.dumps refuses numpy integers
 
 \* =====================================================================================
-\* Blob family : FilenameData.  filename_data.py:81-104, entity_container.py:54-94, h5_writer.py:809-837
+\* Blob family : FilenameData.  filename_data.py:78-104, entity_container.py:54-94, h5_writer.py:809-837
 \* =====================================================================================
 BlobClasses == {"BlobText", "BlobBinary", "BlobTrailingNul", "BlobLarge", "BlobEmpty", "StrNotBytes", "ByteArray"}
 NameClasses == {"Ascii", "Latin1", "BMP", "Astral"}
@@ -199,7 +199,7 @@ TypedBlob(cls) == cls \notin {"StrNotBytes", "ByteArray"}
 ConvBlob(cls) == cls # "BlobEmpty"                    \* h5py cannot create a zero-size opaque dataset
 
 \* =====================================================================================
-\* Map family : ReferenceValueMap.  reference_value_map.py:51-88, h5_writer.py:450-482, h5_reader.py:418-437
+\* Map family : ReferenceValueMap.  reference_value_map.py:51-88, h5_writer.py:451-482, h5_reader.py:419-437
 \* =====================================================================================
 KeyClasses == {"Key0", "Key1", "KeySmall", "KeyMaxU32", "KeyOverU32", "KeyNeg", "KeyFrac", "KeyFloatInt",
                "KeyNpInt", "KeyStr"}
@@ -207,13 +207,13 @@ LabelClasses == {"Unknown", "FalseLbl", "TrueLbl", "Ascii", "Latin1", "BMP", "As
                  "EmbeddedNul", "Surrogate", "BytesLbl", "IntLbl"}
 MultiKeys == {"KeySmall"}                              \* classes used twice in one map (distinct members)
 RepKey(k) == k \in {"Key0", "Key1", "KeySmall", "KeyMaxU32", "KeyNpInt", "KeyFloatInt"}   \* fits the u4 key column
-ConvKey(k) == k # "KeyFloatInt"                        \* reference_value_map.py:59 isinstance(key, int)
+ConvKey(k) == k # "KeyFloatInt"                        \* reference_value_map.py:60 isinstance(key, int)
 RepLabel(l) == l \notin {"EmbeddedNul", "Surrogate", "BytesLbl", "IntLbl"}
-\* reference_value_map.py:83: the boolean map is exempt from the key-0 rule
+\* reference_value_map.py:81: the boolean map is exempt from the key-0 rule
 IsBoolMap(ks, ls) == Len(ks) = 2 /\ {<<ks[i], ls[i]>> : i \in 1..2} = {<<"Key0", "FalseLbl">>, <<"Key1", "TrueLbl">>}
 EntryOK(ks, ls, i) == /\ RepKey(ks[i]) /\ RepLabel(ls[i])
                       /\ (ks[i] = "Key0" => (ls[i] = "Unknown" \/ IsBoolMap(ks, ls)))    \* key 0 is "Unknown"
-DevKey(k) == IF k = "KeyOverU32" THEN "MapKeyWrapsU32" ELSE ""      \* h5_writer.py:480 np.array(..., dtype "<u4")
+DevKey(k) == IF k = "KeyOverU32" THEN "MapKeyWrapsU32" ELSE ""      \* h5_writer.py:466,481 np.array(..., dtype "<u4")
 EncKey(ks, ls, i, devs) ==
     IF EntryOK(ks, ls, i) THEN ks[i]
     ELSE IF DevKey(ks[i]) \in devs /\ DevKey(ks[i]) # "" /\ RepLabel(ls[i]) THEN "WrapU32" ELSE Reject
@@ -311,7 +311,7 @@ DevOf(c, i) ==
       [] c.fam = "Map"     -> IF RepLabel(c.aux[i]) THEN DevKey(c.elems[i]) ELSE ""
       [] c.kind = "Metadata" /\ c.elems[i] = "LooksLikeUuid" -> "MetadataUuidLikeText"
       [] OTHER -> ""
-LengthChecked(c) == c.fam = "Numeric"      \* numeric_data.py:81-110 format_length; text arrays are stored verbatim
+LengthChecked(c) == c.fam = "Numeric"      \* numeric_data.py:74-98 format_length; text arrays are stored verbatim
 TooLong(c) == LengthChecked(c) /\ c.lenrel = "longer"
 Padded(c)  == LengthChecked(c) /\ c.lenrel = "shorter"
 
